@@ -179,7 +179,7 @@ def r2(ctx):
         ok = False
         found = unparse(arg) if arg is not None else "missing"
         if isinstance(arg, ast.Name):
-            defs = rd.reaching(nodes[p], arg.id)
+            defs = rd.origins(nodes[p], arg.id)
             ok = [d.id for d in defs] == [nodes[q_].id]
             found = f"`{arg.id}` defined at line(s) {[d.lineno for d in defs]}"
         ctx.check(ok, fi, f"`{p}` receives exactly the state produced by `{q_}` of the same round", line=nodes[p].lineno,
@@ -188,8 +188,8 @@ def r2(ctx):
     ok = False
     found = unparse(arg) if arg is not None else "missing"
     if isinstance(arg, ast.Name):
-        defs = rd.reaching(nodes["statistics"], arg.id)
-        allowed = {nodes["repopulate"].id, nodes["relabel"].id} | {d.id for d in rd.reaching(ml.cfg.for_init[id(ml.loop)], arg.id)}
+        defs = rd.origins(nodes["statistics"], arg.id)
+        allowed = {nodes["repopulate"].id, nodes["relabel"].id} | {d.id for d in rd.origins(ml.cfg.for_init[id(ml.loop)], arg.id)}
         ok = bool(defs) and {d.id for d in defs} <= allowed and nodes["relabel"].id in {d.id for d in defs}
         found = f"`{arg.id}` defined at line(s) {[d.lineno for d in defs]}"
     ctx.check(ok, fi, "`statistics` receives the state of the previous relabel (or its repopulated copy, or the initial state)",
@@ -198,8 +198,8 @@ def r2(ctx):
     arg = ml.model_arg("repopulate")
     ok = False
     if isinstance(arg, ast.Name):
-        defs = rd.reaching(nodes["repopulate"], arg.id)
-        allowed = {nodes["relabel"].id} | {d.id for d in rd.reaching(ml.cfg.for_init[id(ml.loop)], arg.id)}
+        defs = rd.origins(nodes["repopulate"], arg.id)
+        allowed = {nodes["relabel"].id} | {d.id for d in rd.origins(ml.cfg.for_init[id(ml.loop)], arg.id)}
         ok = {d.id for d in defs} <= allowed and nodes["relabel"].id in {d.id for d in defs}
         found = f"`{arg.id}` defined at line(s) {[d.lineno for d in defs]}"
     ctx.check(ok, fi, "`repopulate` receives the state of the previous round's relabel", line=nodes["repopulate"].lineno,
@@ -278,11 +278,11 @@ def r3(ctx):
                      role="exit:break-guard", expected="previous == state.point_labels", found=unparse(cmp_))
             continue
         cur, prev = cur[0], prev[0]
-        defs = rd.reaching(tnode, cur.value.id)
+        defs = rd.origins(tnode, cur.value.id)
         ctx.check([d.id for d in defs] == [rel.id], fi, "the current side of the test is the labelling just produced by relabel",
                   line=cmp_.lineno, role="exit:current-side", expected=f"state defined at line {rel.lineno}",
                   found=f"`{cur.value.id}` defined at line(s) {[d.lineno for d in defs]}")
-        pdefs = rd.reaching(tnode, prev.id)
+        pdefs = rd.origins(tnode, prev.id)
         inloop = [d for d in pdefs if ml.in_loop(d)]
         outloop = [d for d in pdefs if not ml.in_loop(d)]
         from .common import def_value
@@ -297,9 +297,11 @@ def r3(ctx):
             dep = fl.closure(def_value(d), d)
             src_ok = any(a.endswith(".point_labels") or a.endswith("._point_labels") for a in dep.attrs)
             st_defs = set()
-            for nm in dep.names:
-                if ana.res.type_of(fi, ast.Name(id=nm, ctx=ast.Load())) == MODEL_STATE:
-                    st_defs |= {x.id for x in rd.reaching(d, nm)}
+            direct = {n.id for n in ast.walk(def_value(d)) if isinstance(n, ast.Name)}
+            typed = [nm for nm in dep.names if ana.res.type_of(fi, ast.Name(id=nm, ctx=ast.Load())) == MODEL_STATE]
+            # the state variable read by the save itself (names further up the dependency chain are earlier states)
+            for nm in ([n_ for n_ in typed if n_ in direct] or typed):
+                st_defs |= {x.id for x in rd.origins(d, nm)}
             ok = src_ok and st_defs == {rel.id}
             why = f"saved value {unparse(def_value(d))} (state defs at lines {sorted(cfg.nodes[i].lineno for i in st_defs)})"
             after = cfg.dominates(tnode, d)
@@ -331,8 +333,8 @@ def r4(ctx):
                 continue
             if not cfg.dominates(ml.header, at):
                 continue
-            defs = rd.reaching(at, n.id)
-            pre = {d.id for d in rd.reaching(init, n.id)}
+            defs = rd.origins(at, n.id)
+            pre = {d.id for d in rd.origins(init, n.id)}
             ids = {d.id for d in defs}
             stale = ids - {rel.id} - pre
             zero_trip_only = ids - {rel.id}
